@@ -59,6 +59,32 @@ theorem query_history_independent_counterexample : ¬ query_history_independent_
   revert this
   decide
 
+/-- **The key hypothesis is necessary.**  Whenever two (query, facts) pairs whose fresh answers differ share a
+key — a key built from a goal text without its `NOT`, a digest of the facts that is unchanged when values are
+permuted among the names, a key cut to a fixed length — the history asking one and then the other returns the
+first verdict twice, so it is not history independent. -/
+theorem key_collision_stale (key : Q → F → K) (answer : Q → F → Bool) (q q' : Q) (f f' : F)
+    (hk : key q f = key q' f') (ha : answer q f ≠ answer q' f') :
+    answers true key answer {} [(f, q), (f', q')] = [answer q f, answer q f]
+    ∧ answers true key answer {} [(f, q), (f', q')] ≠ [(f, q), (f', q')].map (fun p => answer p.2 p.1) := by
+  have h : answers true key answer {} [(f, q), (f', q')] = [answer q f, answer q f] := by
+    simp [answers, run, query, lookup, ← hk]
+  refine ⟨h, ?_⟩
+  rw [h]
+  simp
+  exact ha
+
+/-! Instances of the collision: (1) queries are (negated?, atom) and the key keeps the atom only — `g` then `NOT g`
+on the same facts; (2) the facts are the values of two names and the key is their sum — the same query after the
+two values are swapped; (3) the facts are a list and the key keeps its first two entries — the same query after a
+change to the third. -/
+example : answers true (fun (q : Bool × Nat) (f : Bool) => (q.2, f)) (fun q f => q.1 != f) {}
+    [(true, (false, 0)), (true, (true, 0))] = [true, true] := by decide
+example : answers true (fun (_ : Nat) (f : Nat × Nat) => f.1 + f.2) (fun _ f => decide (f.1 > f.2)) {}
+    [((3, 8), 0), ((8, 3), 0)] = [false, false] := by decide
+example : answers true (fun (_ : Nat) (f : List Nat) => f.take 2) (fun _ f => f.drop 2 == [1]) {}
+    [([0, 0, 0], 0), ([0, 0, 1], 0)] = [false, false] := by decide
+
 /-! Non-vacuity: with the facts in the key the same history is answered correctly, the third call
 is a genuine cache hit, and the hit returns the right verdict. -/
 example : run true (fun (q : Nat) (f : Bool) => (q, f)) (fun _ f => f) {} [(false, 0), (true, 0), (false, 0)]
